@@ -48,3 +48,97 @@ fn c06_body_on_repository_vector() {
         vdet::c06::trg_iff_body(&b);
     }
 }
+
+const ADC_SHORT: [u8; 16] = [1, 3, 0, 4, 5, 6, 2, 187, 0, 0, 0, 7, 224, 0, 0, 0];
+const ADC_LONG: [u8; 166] = [
+    1, 3, 0, 1, 2, 3, 2, 187, 0, 0, 0, 4, 0, 0, 216, 128, 57, 104, 142, 82, 0, 0, 0, 0, 0, 0, 0, 5,
+    0, 0, 0, 6, 255, 224, 255, 225, 255, 226, 255, 227, 255, 228, 255, 229, 255, 230, 255, 231,
+    255, 232, 255, 233, 255, 234, 255, 235, 255, 236, 255, 237, 255, 238, 255, 239, 255, 240, 255,
+    241, 255, 242, 255, 243, 255, 244, 255, 245, 255, 246, 255, 247, 255, 248, 255, 249, 255, 250,
+    255, 251, 255, 252, 255, 253, 255, 254, 255, 255, 0, 1, 0, 2, 0, 3, 0, 4, 0, 5, 0, 6, 0, 7, 0,
+    8, 0, 9, 0, 10, 0, 11, 0, 12, 0, 13, 0, 14, 0, 15, 0, 16, 0, 17, 0, 18, 0, 19, 0, 20, 0, 21, 0,
+    22, 0, 23, 0, 24, 0, 25, 0, 26, 0, 27, 0, 28, 0, 29, 0, 30, 0, 31, 0, 32, 0, 0, 240, 34, 0, 0,
+];
+
+#[test]
+fn c02_body_on_repository_vectors() {
+    assert!(vdet::c02::spec(&ADC_SHORT));
+    assert!(vdet::c02::spec(&ADC_LONG));
+    vdet::c02::adc_iff_body(&ADC_SHORT);
+    vdet::c02::adc_iff_body(&ADC_LONG);
+    let mut g = Lcg(11);
+    for _ in 0..50_000 {
+        let mut b = ADC_LONG;
+        // one or two random byte changes: the oracle and the decoder must agree
+        for _ in 0..(1 + g.next() % 2) {
+            let i = (g.next() % 166) as usize;
+            b[i] = g.next() as u8;
+        }
+        vdet::c02::adc_iff_body(&b);
+        let mut s = ADC_SHORT;
+        let i = (g.next() % 16) as usize;
+        s[i] = g.next() as u8;
+        vdet::c02::adc_iff_body(&s);
+    }
+}
+
+const CHUNK_GOOD: [u8; 28] = [
+    236, 40, 255, 135, 2, 0, 0, 0, 3, 0, 0, 1, 5, 0, 1, 0, 143, 203, 131, 81, 255, 0, 0, 0, 122, 92,
+    155, 159,
+];
+
+#[test]
+fn c03_body_on_repository_vector() {
+    assert!(vdet::c03::spec(&CHUNK_GOOD));
+    vdet::c03::chunk_iff_body(&CHUNK_GOOD);
+    let mut g = Lcg(13);
+    for _ in 0..50_000 {
+        let mut b = CHUNK_GOOD;
+        let i = (g.next() % 28) as usize;
+        b[i] ^= 1 << (g.next() % 8);
+        assert!(!vdet::c03::spec(&b));
+        vdet::c03::chunk_iff_body(&b);
+    }
+}
+
+const PWB_ODD: [u8; 104] = [
+    2, 68, 0, 0, 236, 40, 255, 135, 84, 2, 1, 0, 2, 0, 0, 0, 0, 0, 0, 0, 3, 0, 5, 0, 0, 0, 0, 0, 0,
+    0, 0, 1, 1, 1, 1, 1, 1, 0, 0, 0, 0, 0, 0, 0, 4, 0, 0, 0, 5, 0, 6, 7, 57, 0, 5, 0, 1, 2, 3, 4,
+    5, 6, 7, 8, 9, 10, 0, 0, 65, 0, 5, 0, 11, 12, 13, 14, 15, 16, 17, 18, 19, 20, 0, 0, 73, 0, 5,
+    0, 21, 22, 23, 24, 25, 26, 27, 28, 29, 30, 0, 0, 204, 204, 204, 204,
+];
+
+#[test]
+fn c05_body_on_repository_vector() {
+    assert!(vdet::c05::spec(&PWB_ODD));
+    let mut g = Lcg(17);
+    for q in 0..79u8 {
+        vdet::sym::load(vec![vec![q]]);
+        vdet::c05::pwb_iff_body(&PWB_ODD);
+    }
+    for _ in 0..50_000 {
+        let mut b = PWB_ODD;
+        let i = (g.next() % 104) as usize;
+        b[i] = g.next() as u8;
+        vdet::sym::load(vec![vec![(g.next() % 79) as u8]]);
+        vdet::c05::pwb_iff_body(&b);
+    }
+}
+
+#[test]
+fn c07_oracle_on_repository_like_stream() {
+    use alpha_g_detector::chronobox::chronobox_fifo;
+    // marker, two timestamps, scaler block, timestamp
+    let mut s: Vec<u8> = vec![0x01, 0x00, 0x80, 0xFF, 0x11, 0x22, 0x33, 0x80, 0x10, 0x20, 0x30, 0x80 | 58];
+    s.extend([0x3C, 0, 0, 0xFE]);
+    s.extend(std::iter::repeat(7u8).take(240));
+    s.extend([0x05, 0x00, 0x00, 0x81]);
+    let mut input = &s[..];
+    let v = chronobox_fifo(&mut input);
+    assert!(input.is_empty());
+    assert_eq!(v.len(), 4);
+    let words = [[0x01u8, 0x00, 0x80, 0xFF], [0x11, 0x22, 0x33, 0x80], [0x10, 0x20, 0x30, 0x80 | 58], [0x05, 0x00, 0x00, 0x81]];
+    for (e, w) in v.iter().zip(words.iter()) {
+        assert!(vdet::c07::entry_matches(e, vdet::c07::classify(w[0], w[1], w[2], w[3])));
+    }
+}
